@@ -205,3 +205,6 @@ m("revert-a553694-subs-stranded-in-persistent-session", "C07", P,
   "        # Then, invoke publish errbacks if we do not persist state\n        if self._cleanStart:\n            self._purgeSession(reason)\n        return\n",
   more=[(P, "        # SUBSCRIBE/UNSUBSCRIBE requests are not part of the session state:\n        # nothing will resend them, so their errbacks are invoked anyway\n",
          "        if not self._cleanStart:\n            return\n")])
+m("revert-15b3a70-repeated-pubrel-unanswered", "C06", P,
+  "        # a repeated PUBREL must be answered as well [MQTT-4.3.3-2]\n        reply = PUBCOMP()\n",
+  "        if msg is None:\n            return\n        reply = PUBCOMP()\n")
